@@ -182,6 +182,9 @@ def run_property(pid, tier, seed, replay=None):
         if rc != 0:
             failed_from = f
             thm = enclosing_theorem(vp, err) if f != "Src.v" else None
+            if rc == 124 and not err.strip():
+                err = "coqc did not finish within %d s: a proof (or the answer search of its tactic) no longer terminates in its usual time on this source" % per_file_timeout
+                thm = thm or "(timed out)"
             broken.append(dict(kind="proof", name="%s:%s" % (f, thm or "?"), detail=err.strip()[-1200:]))
         else:
             discharged += len(names)
